@@ -128,8 +128,12 @@ def corrupt_json(rng, fc, kind=None):
         n = rng.choice(multi)
         twin = json.loads(json.dumps(n))
         acts = twin["player"]["actions"]
-        k = sorted(acts)[0]
-        acts["zz_other"] = acts.pop(k)
+        if rng.random() < 0.5:
+            # one list is a strict prefix of the other (in the order of the names)
+            acts["zzz_extra"] = {"terminal": 1.0}
+        else:
+            k = sorted(acts)[0]
+            acts["zz_other"] = acts.pop(k)
         new = {"chance": {"outcomes": {"o0": {"prob": 1.0, "state": json.loads(json.dumps(n))}, "o1": {"prob": 1.0, "state": twin}}}}
         n.clear()
         n.update(new)
@@ -229,7 +233,7 @@ def gambit_variants(rng, cid):
     fc = cc.gen_file_case(cid, rng, fmt="gambit")
     fg = fc.fg
     kind = rng.choice(["truncate", "header", "probs", "players1", "players3", "sum-out", "sum-in", "sum-out", "sum-in", "sum-out",
-                       "sum-in", "huge", "numclash", "dupname", "dupname", "dupname", "sharedname", "contract", "badtoken"])
+                       "sum-in", "huge", "numclash", "dupname", "dupname", "dupname", "sharedname", "contract", "badtoken", "flat-one"])
     if kind == "truncate":
         t = fc.text[:rng.randrange(5, max(6, len(fc.text) - 2))].rstrip()
         return fc, t, "gambit", kind
@@ -313,7 +317,7 @@ def gambit_variants(rng, cid):
         fc.fg_variant = _restore_cited(rebuild(fg), cli.fg_outcomes(fg))
         text = cli.efg_text(fc.fg_variant, rng=rng)
         return fc, text, {"sum-out": "constant-sum", "sum-in": None, "huge": "non-finite"}[kind], kind
-    if kind in ("numclash", "dupname", "sharedname", "contract"):
+    if kind in ("numclash", "dupname", "sharedname", "contract", "flat-one"):
         # hand-made small games (as parsed-file structures, so that the Coq model of the reader sees them too)
         F = Fraction
 
@@ -338,6 +342,13 @@ def gambit_variants(rng, cid):
                               ("m", F(1, 3), ("p", pl, n2, mid_name, [("l", T(4, 5, -5)), ("r", T(2, 0, 0))], 0, None)),
                               ("t", F(1, 3), ("p", pl, n3, "same", [("l", T(3, 2, -2)), ("r", T(2, 0, 0))], 0, None))], 0, None)
             cat = "duplicate"
+        elif kind == "flat-one":
+            # player one receives the same amount at every terminal, player two does not: the pair sums differ although
+            # player one's payoffs have no spread at all - not constant-sum (or, with equal sums, a valid constant game)
+            a = rng.choice([0, 2, -3])
+            bs = rng.choice([(1, 4, 7), (0, 0, 5), (-2, 3, 3), (5, 5, 5)])
+            g = ("p", 1, 1, "i", [("l", ("p", 2, 1, "j", [("x", T(1, a, bs[0])), ("y", T(2, a, bs[1]))], 0, None)), ("r", T(3, a, bs[2]))], 0, None)
+            cat = None if len(set(bs)) == 1 else "constant-sum"
         elif kind == "sharedname":
             # both players use the name "same": separate namespaces, must be accepted
             g = ("p", 1, 1, "same", [("l", ("p", 2, 1, "same", [("x", T(1, 1, -1)), ("y", T(2, 0, 0))], 0, None)), ("r", T(3, 2, -2))], 0, None)
